@@ -162,6 +162,11 @@ func (r *Report) Finish(verifDir string, writeEvidence bool) int {
 		}
 		return a.Construct < b.Construct
 	})
+	if os.Getenv("FSDBCHECK_LIST") != "" {
+		for _, o := range r.Obls {
+			fmt.Printf("LIST %s %s %s\n", o.Rule, o.Construct, o.Verdict)
+		}
+	}
 	var nViol, nUndec, nKnown, nHold, nExempt int
 	var viols []Obligation
 	distinct := map[string]bool{}
